@@ -26,11 +26,12 @@ OnePerm == {{"print", "extract"}}
 BothIds == {"present", "absent"}
 
 \* ------------------------------------------------------------------------------------- passwords
-AllTried == {"e", "a", "b", "L", "L2", "M", "M2", "n", "n2", "w", "x", "c", "s", "N", "N2", "P", "B31", "B32", "B33"}
-PairsQuick == {<<"a", "b">>, <<"e", "b">>, <<"n", "M">>, <<"N", "P">>, <<"B32", "B31">>, <<"a", "same">>}
+AllTried == {"e", "a", "b", "L", "L2", "M", "M2", "n", "n2", "w", "x", "c", "s", "N", "N2", "P", "B31", "B32", "B33", "q", "q2"}
+PairsQuick == {<<"a", "b">>, <<"e", "b">>, <<"n", "M">>, <<"N", "P">>, <<"B32", "B31">>, <<"a", "same">>, <<"q2", "q">>}
 PairsFull == {<<u, o>> : u \in {"e", "a", "L", "M", "n"}, o \in {"b", "L", "M", "n", "same"}}
              \cup {<<"N", "b">>, <<"a", "N">>, <<"N", "P">>, <<"P", "N">>, <<"P", "same">>,     \* long AND non-ASCII, either role
-                   <<"B32", "B31">>, <<"B33", "B32">>, <<"B31", "B33">>}                   \* the 32-byte boundary
+                   <<"B32", "B31">>, <<"B33", "B32">>, <<"B31", "B33">>,
+                   <<"q2", "b">>, <<"q", "q2">>, <<"a", "q2">>}                          \* compatibility spellings (R6: NFKC)                   \* the 32-byte boundary
 CanonPair == {<<"a", "b">>}
 OpenTried == {"a", "b"}
 
@@ -74,6 +75,10 @@ DictVariants == {"len40", "len64", "nolen", "alt"}
 DictCfg == {c \in Valid(MkDv(Algs({128}), OnePerm, {"present"}, {"table"}, {"direct", "indirect"}, DictVariants)) :
               c.V >= 4 /\ (c.dv = "alt" => c.cfm \in {"V2", "AESV2", "AESV3"})}
 DictTried == {"a", "b", "w"}
+\* below V 4: entries only V >= 4 gives a meaning to, written out all the same
+LowDictCfg == {c \in Valid(MkDv(Algs({40, 128}), OnePerm, BothIds, {"table"}, {"direct", "indirect"}, {"emfalse", "emtrue", "cfnoise", "len40"})) :
+                 c.V < 4 /\ (c.dv = "len40" => c.V = 1)}
+AllDictCfg == DictCfg \cup LowDictCfg
 \* "content": every configuration x ID x physical form x Encrypt placement x every item location, both passwords
 AllForms == {"table", "xrefstm", "hybrid", "xrefstmw0", "xrefstm0w"}     \* /W [1 n 0] and /W [0 n 2] cross-reference streams
 ContentQuick == Valid(Mk(Algs(KeyLensQuick), OnePerm, {"present"}, AllForms, {"direct", "indirect"}))
